@@ -8,7 +8,9 @@ data_types.EmailContent.iterate_supported_attachments (EXTRA `attachments_site`,
 invariant shared with contracts/C16.py).
 `os.path.splitext` and `mimetypes.guess_type` are uninterpreted (E, M): the
 proofs hold for *every* MIME database and every splitext satisfying axioms
-A1-A3 (A5 is used only by the alias lemma).  `str.lower` is uninterpreted: both
+A1-A3 (A5 is used only by the alias lemma).  Round 7: A1-A3 are discharged on
+the interpreter's own `genericpath._splitext` / `posixpath.splitext` (EXTRA
+`splitext_stdlib`); `archive_extractor._get_router_functions` has a contract.  `str.lower` is uninterpreted: both
 entry points are shown to depend on the path only through lower(path).
 """
 import z3
@@ -500,6 +502,15 @@ def archive_contracts(ge_returns_for):
         generator=True, raises=[],
         ensures=[("at-most-one-dispatch-to-get_extractor(basename)-with-path=archive!/member", pe_dispatch)],
         note="an archive member is handed to exactly the extractor the router gives for its base name"))
+    # (round 7) the accessor behind the two wrappers under its own contract: it hands out exactly the router's two entry
+    # points -- a pair made of router.is_supported_file and router.get_extractor; in a record (NamedTuple / dataclass / dict
+    # holder) the component NAMED after an entry point IS that entry point (function identity = (module, qualified name) of a
+    # module-level def) -- and raises nothing.  `inline=True`: the wrappers keep executing the real body in place (the wrappers' own functional contracts do
+    # not rest on this one -- it is an additional, separately refutable obligation on the accessor).
+    out.append(FnContract(
+        target=f"{ARCH}::{ACCESSOR}", params=[], inline=True, raises=[], total=True,
+        ensures=[("hands-out-exactly-the-router's-two-entry-points", accessor_post)],
+        note="the archive extractor's cached router accessor hands out the router's two entry points (under their own names in a record)"))
     # The two cache wrappers are modular lemmas for their callers.  When a wrapper no longer exists under that name (renamed,
     # merged, inlined) there is nothing to prove about it: its callers (_should_skip_file, _process_archive_entry) are then
     # verified with the body of whatever they call instead (helpers without contract are executed in place).
@@ -507,7 +518,38 @@ def archive_contracts(ge_returns_for):
     return [c for c in out if c.target.split("::")[1] not in OPTIONAL_WRAPPERS or c.target.split("::")[1] in have]
 
 
-OPTIONAL_WRAPPERS = ("_is_supported_file_cached", "_get_file_extractor_cached")
+ACCESSOR = "_get_router_functions"
+OPTIONAL_WRAPPERS = ("_is_supported_file_cached", "_get_file_extractor_cached", ACCESSOR)
+
+
+def _is_router_fn(v, name):
+    from pyvc.values import VFunc
+    return isinstance(v, VFunc) and v.how == "repo" and v.a == ROUTER and v.b == name
+
+
+def accessor_post(c):
+    """result of the router accessor: by position (tuple / NamedTuple: the wrappers unpack it) and by name (NamedTuple /
+    dataclass / dict holder: the wrappers read `.is_supported_file` / `.get_extractor`).  A shape that is none of these cannot
+    be stated here (Unsupported -> UNKNOWN-SHAPE: undecided, never a violation by itself)."""
+    from pyvc.values import VNamedTuple, VRef
+    r = c.result
+    want = list(ENTRY_POINTS)
+    if isinstance(r, VTuple):
+        # which position holds which entry point is the accessor's private convention with its callers (decided on the
+        # wrappers' contracts, which execute this body in place): here, the two components are the router's two entry points
+        ok = len(r.items) == 2 and any(all(_is_router_fn(v, n) for v, n in zip(r.items, order)) for order in (want, want[::-1]))
+        if isinstance(r, VNamedTuple):
+            named = dict(zip(r.names, r.items))
+            ok = ok and all(_is_router_fn(named[n], n) for n in want if n in named)
+        return z3.BoolVal(bool(ok))
+    if isinstance(r, VRef):
+        o = c.st.obj(r.ref)
+        if o.kind in ("obj", "dict") and isinstance(o.data, dict):
+            have = {k: v for k, v in o.data.items() if k in want}
+            if not have:
+                raise ops.Unsupported("holder object without a field named after a router entry point")
+            return z3.BoolVal(len(have) == 2 and all(_is_router_fn(v, k) for k, v in have.items()))
+    raise ops.Unsupported(f"result of the router accessor is not a tuple / record ({type(r).__name__})")
 
 
 def absent_wrappers(repo, tier):
@@ -550,6 +592,45 @@ def lemmas():
     return _LEMMAS[key]
 
 
+def _outcome_lemmas():
+    """round-7 lemmas over the complete specified outcome (kept apart: a failure to BUILD them on a changed tree drops them --
+    reported missing against the lock -- and never takes the other lemmas or the check down)"""
+    out = []
+    # (round 7) the same as a 2-safety statement the solver discharges: the complete specified outcome of both entry points
+    # (supported?, raises?, extractor) under two ARBITRARY MIME databases (M, MNONE) / (M', MNONE') is the same whenever the
+    # extension decides -- the database symbols are replaced in the specification terms, nothing is read off their syntax
+    M2 = z3.Function("guess_type_mime!2", S, S)
+    MNONE2 = z3.Function("guess_type_is_none!2", S, z3.BoolSort())
+    q = z3.String("q!lem")
+    lq = LOWER(q)
+    nq, vq = ft_spec(lq)
+    outcome = _outcome_terms(q)
+    outcome2 = [z3.substitute_funs(t, (M, M2(z3.Var(0, S))), (MNONE, MNONE2(z3.Var(0, S)))) for t in outcome]
+    out.append(("C07/router.py::spec/lemma#two-mime-databases-same-outcome-when-the-extension-decides", [splitext_axioms(lq), z3.Not(nq)],
+                z3.And([a == b for a, b in zip(outcome, outcome2)])))
+    # ... and the converse direction of what "MIME fallback" means: without an extension decision the outcome is the one the
+    # database's answer has in the library's own table, whatever else the two databases say (same answer for this path => same outcome)
+    out.append(("C07/router.py::spec/lemma#mime-fallback-depends-on-the-database-only-through-guess_type(lower(path))",
+                [splitext_axioms(lq), MNONE(lq) == MNONE2(lq), z3.Implies(z3.Not(MNONE(lq)), M(lq) == M2(lq))],
+                z3.And([a == b for a, b in zip(outcome, outcome2)])))
+    # case-insensitivity: two spellings with the same lower-cased form have the same complete outcome at both entry points
+    q2 = z3.String("q2!lem")
+    out.append(("C07/router.py::spec/lemma#same-lowercased-path-same-outcome", [LOWER(q) == LOWER(q2)],
+                z3.And([a == b for a, b in zip(outcome, _outcome_terms(q2))])))
+    # call-site view used by other packs (contracts/C16.py::router_contracts: get_extractor as an ASSUMED "deterministic partial
+    # function of the path" GE_RAISES / GE_MOD / GE_FN; `attachments_site` below: is_supported_file(p) == not GE_RAISES(p)): implied by
+    # the contracts verified here -- the specified outcome is a function of the path alone (equal paths, equal outcome), exactly one
+    # of "raises the not-supported error" / "returns" holds, the two return cases exclude each other, and is_supported_file is the
+    # negation of the raise condition.  So GE_RAISES := raise condition, (GE_MOD, GE_FN) := specified result is a model of the view.
+    cases_q = ge_returns_for_term(q)
+    out.append(("C07/router.py::get_extractor/lemma#assumed-call-site-view-(deterministic-partial-function)-is-implied", [q == q2],
+                z3.And(z3.And([a == b for a, b in zip(outcome, _outcome_terms(q2))]),
+                       z3.Or([c for c, _ in cases_q]) == z3.Not(ge_raises_term(q)),
+                       z3.Not(z3.And([c for c, _ in cases_q])),
+                       sup_term(q) == z3.Not(ge_raises_term(q)))))
+    return out
+
+
 def _lemmas():
     REG, ALI, COMP, MIMES = tables()
     out = []
@@ -567,6 +648,10 @@ def _lemmas():
     # (ft_spec and reg_lookup(val) do not mention M/MNONE: checked syntactically here.)
     mentions = any(str(d) in ("guess_type_mime", "guess_type_is_none") for d in _decls(z3.And(is_none == is_none, val == val)))
     out.append(("C07/router.py::spec/lemma#extension-routing-independent-of-mime-database", [], z3.BoolVal(not mentions)))
+    try:
+        out.extend(_outcome_lemmas())
+    except Exception:  # noqa
+        pass
     # alias behaves exactly like its base, for every stem ending in a name character (A5 instances as hypotheses)
     s = z3.String("s!lem")
     last = z3.SubString(s, z3.Length(s) - 1, 1)
@@ -606,6 +691,16 @@ def _lemmas():
     return out
 
 
+def _outcome_terms(path, repo=None):
+    """the complete specified outcome of the two entry points on `path`: [is_supported_file, get_extractor raises, module, function]"""
+    (c1, v1), (c2, v2) = ge_returns_for_term(path, repo)
+    rz = ge_raises_term(path, repo)
+    empty = z3.StringVal("")
+    mod = z3.If(rz, empty, z3.If(c1, v1.items[0].t, v2.items[0].t))
+    fn = z3.If(rz, empty, z3.If(c1, v1.items[1].t, v2.items[1].t))
+    return [sup_term(path, repo), rz, mod, fn]
+
+
 def _decls(e):
     seen, stack, out = set(), [e], []
     while stack:
@@ -619,10 +714,17 @@ def _decls(e):
     return out
 
 
-TRUSTED = ["os.path.splitext axioms A1-A3 (+A5 instances in alias/extension lemmas)", "mimetypes.guess_type total, deterministic",
+TRUSTED = ["os.path.splitext: A5 instances (positive case: stem + '.' + ext => that extension) as hypotheses of the alias / extension-routes "
+           "lemmas only; A1-A3 (+ root + ext == path) are no longer trusted: discharged on genericpath._splitext / posixpath.splitext of "
+           "this host's interpreter(s) (POSIX flavour of os.path; ntpath is not verified)",
+           "builtin str.rfind with a one-character needle, by its definition (s == a + c + b, c not in b, result len(a); -1 iff c not in s)",
+           "mimetypes.guess_type total, deterministic",
            "importlib.import_module succeeds for registry modules"]
-ASSUMED_MODELS = ["os.path.splitext (uninterpreted, axioms A1-A3)", "mimetypes.guess_type (uninterpreted: any MIME database)",
-                  "str.lower (uninterpreted, idempotent)", "importlib.import_module + getattr (function identity = (module, name))"]
+ASSUMED_MODELS = ["os.path.splitext (call-site view: uninterpreted with axioms A1-A3, which are DISCHARGED on the interpreter's own source: "
+                  "C07/genericpath.py::_splitext/*, C07/posixpath.py::splitext/*; assumed: os.path is posixpath)",
+                  "mimetypes.guess_type (uninterpreted: any MIME database)",
+                  "str.lower (uninterpreted, idempotent)", "str.rfind (one-character needle, definitional)",
+                  "importlib.import_module + getattr (function identity = (module, name))"]
 ASSUMPTIONS = ["PY-STR: str as sequence of code points (z3 String)", "PY-EXC", "logger calls dropped (PY-LOG)",
                "PY-MEMO: functools.lru_cache in front of a deterministic function is transparent (decorators are not executed); "
                "the MIME database does not change between a member's selection and its dispatch (cache soundness: C15)",
@@ -956,7 +1058,9 @@ def attachments_site(repo, tier):
     if not any(c.target == sup_target for c in cs):
         reg.add(FnContract(target=sup_target, params=[("path", p_str())], assumed=True,
                            returns=lambda c: VBool(z3.Not(C16.GE_RAISES(c.args["path"].t))),
-                           note="verified by this pack (contract of is_supported_file + lemma is_supported-iff-get_extractor-returns)"))
+                           note="call-site VIEW of a contract verified by this pack, not an assumption of it: implied by the contract of "
+                                "is_supported_file + lemma get_extractor/lemma#assumed-call-site-view-(deterministic-partial-function)-is-implied "
+                                "(discharged: GE_RAISES := the verified raise condition is a model of the view C16 assumes of get_extractor)"))
     unknown = lambda why: {"id": f"{short}/out-of-subset", "kind": "out-of-subset", "status": "unknown", "vcs": 0, "seconds": 0.0,
                            "backends": {}, "witness": None, "reason": why[:300], "function": target, "loc": ""}
     if not isa:
@@ -1170,10 +1274,190 @@ def ge_returns_for_term(s_term, repo=None):
     return [(z3.Not(is_none), reg_lookup(val, repo)), (z3.And(is_none, mime_ok(p, repo)), reg_lookup(mime_ft(p, repo), repo))]
 
 
+# ---- (round 7) os.path.splitext: axioms A1-A3 discharged on the interpreter's own source --------------------------------
+SPLITEXT = "genericpath.py::_splitext"
+SPLITEXT_POSIX = "posixpath.py::splitext"
+
+
+def stdlib_dirs():
+    """directories holding the genericpath.py of (a) the interpreter the library's suite / the native replayer runs with and
+    (b) the interpreter of this checker; (a) first"""
+    import os as _os
+    import subprocess as _sp
+    import genericpath as _gp
+    out = []
+    if _os.environ.get("VERIF_STDLIB"):       # another interpreter's Lib directory (colon-separated list)
+        return [d for d in _os.environ["VERIF_STDLIB"].split(":") if d]
+    try:
+        r = _sp.run(["/venv/bin/python", "-c", "import genericpath;print(genericpath.__file__)"], capture_output=True, text=True, timeout=20)
+        if r.returncode == 0 and r.stdout.strip().endswith("genericpath.py"):
+            out.append(_os.path.dirname(r.stdout.strip()))
+    except (OSError, _sp.SubprocessError):
+        pass
+    d = _os.path.dirname(_gp.__file__)
+    if d not in out:
+        out.append(d)
+    return out
+
+
+def m_rfind(ex, st, args, kwargs, node):
+    """builtin str.rfind for a ONE-character constant needle c, by its definition: -1 iff c does not occur; else the k with
+    s == a + c + b, k == len(a), c not in b (sound and complete for one character; anything else: no model).
+    A second search in a string this path has already split as s == x + c0 + y (c0 != c, c0 not in y) is answered inside that
+    split -- c occurs last in y, else last in x, else nowhere: the same definition, case by case -- so that a path never holds
+    two unrelated decompositions of one string (z3's sequence solver answers `unknown` on those)."""
+    from pyvc.values import VInt
+    s = args[0]
+    c = args[1].const() if len(args) == 2 and isinstance(args[1], VStr) else None
+    if not isinstance(s, VStr) or c is None or len(c) != 1 or kwargs:
+        return ex.havoc_call(st, "str.rfind", args, node)
+    ct = z3.StringVal(c)
+
+    def split(state, t, base):
+        """outcomes of the search for the last c in term t (positions counted from `base`): [(state, index term, parts | None)]"""
+        a, b = z3.String(fresh_name("rfind!a")), z3.String(fresh_name("rfind!b"))
+        nf = state.fork().assume(z3.Not(z3.Contains(t, ct)))
+        fd = state.assume(z3.And(t == z3.Concat(a, ct, b), z3.Not(z3.Contains(b, ct))))
+        return [(nf, None, None), (fd, base + z3.Length(a), (a, b))]
+
+    known = dict(st.ghost.get("rfind_parts", {}))
+    prev = known.get(s.t.get_id())
+    out = []
+    if prev is not None and prev[1] != c:
+        (_keep, c0, x, y) = prev
+        for (s1, idx, _p) in split(st, y, z3.Length(x) + 1):
+            if idx is not None:
+                out.append((s1, VInt(z3.simplify(idx))))
+                continue
+            for (s2, idx2, _q) in split(s1, x, z3.IntVal(0)):
+                out.append((s2, VInt(z3.IntVal(-1) if idx2 is None else z3.simplify(idx2))))
+        return out
+    for (s1, idx, parts) in split(st, s.t, z3.IntVal(0)):
+        if parts is not None:
+            g = dict(s1.ghost.get("rfind_parts", {}))
+            g[s.t.get_id()] = (s.t, c, parts[0], parts[1])      # (the term is kept alive with its id)
+            s1.ghost["rfind_parts"] = g
+        out.append((s1, VInt(z3.IntVal(-1) if idx is None else z3.simplify(idx))))
+    return out
+
+
+class SliceExecutor(Executor):
+    """string slices whose bounds the path condition places inside the string are emitted as the plain `substr` (each bound
+    justified by a small solver query on the current path; not entailed / no answer: the engine's clamped form, which is always
+    right and only slower for the solvers)"""
+
+    def _entails(self, st, f):
+        so = z3.Solver()
+        so.set("timeout", 1500)
+        so.add(*st.pc)
+        so.add(z3.Not(f))
+        return so.check() == z3.unsat
+
+    def str_slice(self, st, base, sl, node):
+        if sl.step is not None:
+            return super().str_slice(st, base, sl, node)
+        ln = z3.Length(base.t)
+
+        def norm(e, dflt):
+            if e is None:
+                return dflt
+            t = self._ev_int1(e, st, node)
+            if self._entails(st, z3.And(t >= 0, t <= ln)):
+                return z3.simplify(t)
+            return z3.simplify(z3.If(t < 0, z3.If(t + ln < 0, z3.IntVal(0), t + ln), z3.If(t > ln, ln, t)))
+        lo, hi = norm(sl.lower, z3.IntVal(0)), norm(sl.upper, ln)
+        n = z3.simplify(hi - lo) if self._entails(st, hi >= lo) else z3.If(hi - lo < 0, z3.IntVal(0), hi - lo)
+        return [(st, VStr(z3.SubString(base.t, lo, n)))]
+
+
+def splitext_contract(wrapper=False):
+    """`genericpath._splitext(p, '/', None, '.')` -- what posixpath.splitext(str) calls -- satisfies exactly the axioms the
+    router proofs assume of the uninterpreted E / ROOT (`splitext_axioms`), and raises nothing, for EVERY string p."""
+    from pyvc.contracts import LoopSpec
+    from pyvc.verify import p_const
+
+    def parts(c):
+        r = c.result
+        if not (isinstance(r, VTuple) and len(r.items) == 2 and all(isinstance(x, VStr) for x in r.items)):
+            raise ops.Unsupported("result of _splitext is not a pair of strings")
+        return r.items[0].t, r.items[1].t
+
+    dot, sl = z3.StringVal("."), z3.StringVal("/")
+    A1 = lambda c: (lambda root, e: z3.Or(e == z3.StringVal(""), z3.PrefixOf(dot, e)))(*parts(c))
+    A2 = lambda c: (lambda root, e: z3.Not(z3.Contains(z3.SubString(e, 1, z3.Length(e)), dot)))(*parts(c))
+    A3 = lambda c: (lambda root, e: z3.Not(z3.Contains(e, sl)))(*parts(c))
+    A4 = lambda c: (lambda root, e: z3.Concat(root, e) == _s(c, "p"))(*parts(c))
+
+    def inv(lc):
+        from pyvc.ops import int_term
+        fi, d, sp = int_term(lc["filenameIndex"]), int_term(lc["dotIndex"]), int_term(lc["sepIndex"])
+        return z3.And(fi >= sp + 1, fi <= d, sp >= -1)
+
+    def dec(lc):
+        from pyvc.ops import int_term
+        return int_term(lc["dotIndex"]) - int_term(lc["filenameIndex"])
+
+    clauses = [("A1-extension-empty-or-starts-with-dot", A1), ("A2-no-further-dot-in-extension", A2),
+               ("A3-no-separator-in-extension", A3), ("A4-root+extension-is-the-path", A4)]
+    if wrapper:
+        # posixpath.splitext(p) for a str p: the same four clauses, proved from the contract of genericpath._splitext at its call
+        return FnContract(target=SPLITEXT_POSIX, params=[("p", p_str())], ensures=clauses, raises=[], total=True,
+                          note="posixpath.splitext(str) = genericpath._splitext(p, '/', None, '.') (os.fspath of a str is the str)")
+    return FnContract(
+        target=SPLITEXT,
+        result_maker=lambda ex, st, cx: VTuple([VStr(z3.String(fresh_name("splitext!root"))), VStr(z3.String(fresh_name("splitext!ext")))]),
+        params=[("p", p_str()), ("sep", p_const("/")), ("altsep", p_const(None)), ("extsep", p_const("."))],
+        ensures=clauses,
+        requires=lambda c: z3.And(ops.eq_term(c.args["sep"], VStr("/")), ops.eq_term(c.args["altsep"], NONE), ops.eq_term(c.args["extsep"], VStr("."))),
+        raises=[], total=True,
+        loops={0: LoopSpec(inv=inv, decreases=dec, label="leading-dots")},
+        note="os.path.splitext on POSIX = genericpath._splitext(p, '/', None, '.'): the axioms A1-A3 (+ root + ext == p) that every "
+             "router proof assumes of the uninterpreted splitext are proved on the interpreter's own source")
+
+
+def splitext_stdlib(repo, tier):
+    """The assumed model `m_splitext` (uninterpreted E / ROOT + `splitext_axioms`) stays the call-site view of os.path.splitext;
+    this EXTRA discharges those axioms on the real body of `genericpath._splitext` of the interpreter(s) on this host (the source
+    is re-read on every run; `str.rfind` with a one-character needle by definition, slices / comparisons by the engine)."""
+    from pyvc import verify
+    from pyvc.contracts import Registry
+    from pyvc.exctypes import Universe
+    obls, fns = [], []
+    seen = set()
+    for d in stdlib_dirs():
+        try:
+            sha = tuple(loader.module(t.split("::")[0], d).fn_info(t.split("::")[1])["segment_sha256"] for t in (SPLITEXT, SPLITEXT_POSIX))
+        except (OSError, KeyError, SyntaxError) as e:
+            raise ops.Unsupported(f"{d}: no readable genericpath._splitext / posixpath.splitext ({type(e).__name__})")
+        if sha in seen:
+            continue                       # the same source text in both interpreters: proved once
+        reg = Registry()
+        reg.ext_models["str.rfind"] = m_rfind
+        reg.ext_models["os.fspath"] = m_fspath
+        inner = splitext_contract()
+        reg.add(inner)
+        reg.ext_models["genericpath._splitext"] = inner      # what posixpath.splitext calls: the contract verified just below
+        for c in (inner, splitext_contract(wrapper=True)):
+            # (every VC is closed by z3 in < 0.1 s: `m_rfind` never leaves two unrelated decompositions of the path on one path)
+            rep = verify.run_contract("C07", c, reg, Universe(repo), repo=d, timeout_ms=60000 if tier == "thorough" else None,
+                                      executor_cls=SliceExecutor)
+            if rep.error or rep.out_of_subset:
+                raise ops.Unsupported(f"{d}/{c.target}: {(rep.error or rep.out_of_subset)[:200]}")
+            for o in rep.obligations:
+                o["function"] = f"{d}/{c.target}"
+                if seen:
+                    o["id"] += f"@{d.rsplit('/', 1)[-1]}"
+                obls.append(o)
+            fns.append(dict(rep.info, function=f"{d}/{c.target}", paths=rep.paths, obligations=len(rep.obligations), stdlib=True))
+        seen.add(sha)
+    return {"obligations": obls, "functions": fns}
+
+
 EXTRA = [_guarded(public_surface, "C07/__init__.py::public-surface/policy#entry-points-are-the-router-functions"),
          _guarded(absent_wrappers, "C07/archive_extractor.py::cached-router-wrappers/vacuous#absent"),
          _guarded(policy, "C07/router.py::tables/module-invariant#tables-evaluate-to-constants"),
          _guarded(member_loops, "C07/archive_extractor.py::member-loops/call-site#skip-rule-and-dispatch-see-the-same-member-name"),
+         _guarded(splitext_stdlib, "C07/genericpath.py::_splitext/out-of-subset", "genericpath.py::_splitext"),
          _guarded(attachments_site, "C07/data_types.py::EmailContent.iterate_supported_attachments/out-of-subset",
                   "sharepoint2text/parsing/extractors/data_types.py::EmailContent.iterate_supported_attachments")]
 
